@@ -131,6 +131,8 @@ Section Codec.
     if (ctype =? qcow2_QCOW2_COMPRESSION_TYPE_ZSTD) && negb has_zstd then Err else
     if sub_size <? Z.shiftl 1 qcow2_MIN_CLUSTER_BITS then Err else
     if negb (f "crypt_method"%string =? 0) then Err else
+    (* unknown incompatible feature bits are refused (fix: QCOW2 unknown incompat mask) *)
+    if negb (Z.land incompat (Z.lnot qcow2_QCOW2_INCOMPAT_MASK) =? 0) then Err else
     let bfo := f "backing_file_offset"%string in
     let end_ := if bfo =? 0 then cluster_size else bfo in
     do xs <- ext_walk (ext_fuel header_length end_) rd header_length end_;
